@@ -625,10 +625,14 @@ inline bool get_value(const std::string& source)
 template<typename T>
 T fast_atoi(const char *str, const char term='\0')
 {
-	T retval(0);
+	using U = typename std::make_unsigned<T>::type;
+	const bool neg(std::is_signed<T>::value && *str == '-');
+	if (neg)
+		++str;
+	U retval(0);
 	for (; *str != term; ++str)
 		retval = (retval << 3) + (retval << 1) + *str - '0';
-	return retval;
+	return static_cast<T>(neg ? U(0) - retval : retval);
 }
 
 //----------------------------------------------------------------------------------------
